@@ -125,7 +125,30 @@ def gen_cases(tier, seed):
         for binding in ("post", "redirect"):
             cases.append({"id": "%s-payload-%d" % (binding, k), "sig": [binding, "payload", k % 7, "noquery"], "binding": binding, "msg": None,
                           "payload": payload, "relay": r2.choice(RELAY_CLASSES["amp"] + RELAY_CLASSES["quotes"]), "rclass": "mixed", "dest": "noquery"})
+    # size: payloads around every power of two from 1 KiB to 1 MiB (buffers, limits and chunking live there), compressible and not
+    exps = (10, 12, 13, 14, 15, 16, 17, 20) if tier == "quick" else range(8, 23)
+    for e in exps:
+        for delta in (-1, 0, 1):
+            n = (1 << e) + delta
+            for fill in ("repeat", "random", "xmlish"):
+                if tier == "quick" and fill == "xmlish" and delta:
+                    continue
+                for binding in ("post", "redirect"):
+                    cases.append({"id": "%s-size-%d-%s" % (binding, n, fill), "sig": [binding, "size", e, delta, fill], "binding": binding, "msg": None,
+                                  "payload_size": n, "fill": fill, "relay": "rs", "rclass": "plain", "dest": "noquery"})
     return cases
+
+
+def sized_payload(n, fill, seed):
+    if fill == "repeat":
+        return ("A" * n)
+    r = random.Random("%s/%d/%s" % (seed, n, fill))
+    if fill == "random":
+        alphabet = "abcdefghijklmnopqrstuvwxyzABCDEFGHIJKLMNOPQRSTUVWXYZ0123456789+/=<>&\"' "
+        return "".join(r.choice(alphabet) for _ in range(n))
+    head, tail = '<samlp:Response xmlns:samlp="urn:oasis:names:tc:SAML:2.0:protocol" ID="big"><v>', "</v></samlp:Response>"
+    body = n - len(head) - len(tail)
+    return head + "".join(r.choice("0123456789abcdef") for _ in range(max(0, body))) + tail
 
 
 def run_case(case, ctx):
@@ -150,6 +173,8 @@ def _run_case(case, ctx):
     relay = case["relay"]
     viol, counters = [], {}
     if case["msg"] is None:
+        if "payload_size" in case:
+            case = dict(case, payload=sized_payload(case["payload_size"], case["fill"], ctx.seed))
         kind, msg, is_resp, soaptype = "payload", case["payload"], False, None
     elif binding == "artifact":
         kind, msg, is_resp, soaptype = "artifact", ctx.artifacts[case["msg"]], False, None
